@@ -7,6 +7,8 @@ planner model against.
 -/
 namespace MindsVerif.TS
 
+variable {α : Type} [DecidableEq α] [VOrd α]
+
 /-! ## the domain: `<time condition> AND <partition filters>` in any AND-nesting -/
 
 /-- comparison operators; `inn` with a constant right operand is what `g IN (3)` parses to -/
@@ -15,24 +17,24 @@ def isCmp : Op → Bool
   | _ => false
 
 /-- a partition filter: `g_i <cmp> c`, `g_i IN (c, …)`, `g_i BETWEEN a AND b` on a group column -/
-def isPF (nG : Nat) : W → Bool
+def isPF (nG : Nat) : W α → Bool
   | .bin op (.ident (.grp i)) (.const _) => decide (i < nG) && isCmp op
   | .bin .inn (.ident (.grp i)) (.tuple _) => decide (i < nG)
   | .btw (.ident (.grp i)) (.const _) (.const _) => decide (i < nG)
   | _ => false
 
 /-- an AND-tree of partition filters (no time condition) -/
-def pfTree (nG : Nat) : W → Bool
+def pfTree (nG : Nat) : W α → Bool
   | .bin .and l r => pfTree nG l && pfTree nG r
   | w => isPF nG w
 
 /-- the time-condition classes of the property (order column on the left, constant / LATEST on the right) -/
-inductive TC
-  | gt (c : Int) | ge (c : Int) | eq (c : Int) | lt (c : Int) | le (c : Int)
-  | btw (a b : Int) | gtLatest | eqLatest
+inductive TC (α : Type)
+  | gt (c : α) | ge (c : α) | eq (c : α) | lt (c : α) | le (c : α)
+  | btw (a b : α) | gtLatest | eqLatest
   deriving DecidableEq, Repr
 
-def TC.toW : TC → W
+def TC.toW : TC α → W α
   | .gt c => .bin .gt (.ident .time) (.const c)
   | .ge c => .bin .ge (.ident .time) (.const c)
   | .eq c => .bin .eq (.ident .time) (.const c)
@@ -42,13 +44,33 @@ def TC.toW : TC → W
   | .gtLatest => .bin .gt (.ident .time) .latest
   | .eqLatest => .bin .eq (.ident .time) .latest
 
+/-- time conditions written with the order column on the right: `c < t`, `c <= t`, `c > t`, `c >= t`, `c = t` -/
+inductive RC (α : Type)
+  | lt (c : α) | le (c : α) | gt (c : α) | ge (c : α) | eq (c : α)
+  deriving DecidableEq, Repr
+
+def RC.toW : RC α → W α
+  | .lt c => .bin .lt (.const c) (.ident .time)
+  | .le c => .bin .le (.const c) (.ident .time)
+  | .gt c => .bin .gt (.const c) (.ident .time)
+  | .ge c => .bin .ge (.const c) (.ident .time)
+  | .eq c => .bin .eq (.const c) (.ident .time)
+
+/-- the same condition with the order column on the left -/
+def RC.mirror : RC α → TC α
+  | .lt c => .gt c
+  | .le c => .ge c
+  | .gt c => .lt c
+  | .ge c => .le c
+  | .eq c => .eq c
+
 /-- an AND-tree with exactly one leaf equal to the time condition `tf`, all other leaves partition filters -/
-def tcTree (nG : Nat) (tf : W) : W → Bool
+def tcTree (nG : Nat) (tf : W α) : W α → Bool
   | .bin .and l r => (tcTree nG tf l && pfTree nG r) || (pfTree nG l && tcTree nG tf r)
   | w => decide (w = tf)
 
 /-- `Dom nG tc w`: the user's WHERE `w` is in the domain of the property with time-condition class `tc` -/
-def Dom (nG : Nat) : Option TC → Option W → Bool
+def Dom (nG : Nat) : Option (TC α) → Option (W α) → Bool
   | none, none => true
   | none, some w => pfTree nG w
   | some tc, some w => tcTree nG tc.toW w
@@ -57,94 +79,102 @@ def Dom (nG : Nat) : Option TC → Option W → Bool
 /-! ## the intended row sets -/
 
 /-- the user's partition filters: every conjunct of the WHERE other than the time condition `tf` is TRUE -/
-def restSel (p : List Int) (tf : W) : W → Row → Bool
-  | .bin .and l x, r => restSel p tf l r && restSel p tf x r
-  | w, r => if w = tf then true else sel p w r
+def restSel (e : Env α) (tf : W α) : W α → Row α → Bool
+  | .bin .and l x, r => restSel e tf l r && restSel e tf x r
+  | w, r => if w = tf then true else sel e w r
 
-def restSelO (p : List Int) (tc : Option TC) (w : Option W) (r : Row) : Bool :=
+def restSelO (e : Env α) (tc : Option (TC α)) (w : Option (W α)) (r : Row α) : Bool :=
   match w with
   | none => true
-  | some w => restSel p ((tc.map TC.toW).getD .null) w r
+  | some w => restSel e ((tc.map TC.toW).getD .null) w r
 
-/-- row `r` belongs to partition value `p` on group column `i` (SQL equality, both non-NULL) -/
-def inPartAt (p : List Int) (r : Row) (i : Nat) : Bool :=
-  match (r.g[i]?).join, p[i]? with
-  | some a, some b => decide (a = b)
-  | _, _ => false
+/-- row `r` belongs to the partition record `e.p` on group column `i`: the same group value, where NULL
+is a group value like any other (this is what "for each partition value occurring in the data" means) -/
+def inPartAt (e : Env α) (r : Row α) (i : Nat) : Bool :=
+  decide ((r.g[i]?).join = (e.p[i]?).join)
 
-def inPartFrom (p : List Int) (r : Row) : Nat → Nat → Bool
+def inPartFrom (e : Env α) (r : Row α) : Nat → Nat → Bool
   | 0, _ => true
-  | n + 1, i => inPartAt p r i && inPartFrom p r n (i + 1)
+  | n + 1, i => inPartAt e r i && inPartFrom e r n (i + 1)
 
-/-- `r.g[i] = p[i]` for every group column `i < nG` -/
-def inPart (p : List Int) (nG : Nat) (r : Row) : Bool := inPartFrom p r nG 0
+/-- `r.g[i]` is `p[i]` for every group column `i < nG` -/
+def inPart (e : Env α) (nG : Nat) (r : Row α) : Bool := inPartFrom e r nG 0
+
+/-- the partition record has no NULL among the group values `i … i+n-1` -/
+def nonNullFrom (e : Env α) : Nat → Nat → Bool
+  | 0, _ => true
+  | n + 1, i => ((e.p[i]?).join).isSome && nonNullFrom e n (i + 1)
+
+/-- what the executor has to provide for the `$var[col]` placeholders to select the partition: either it
+evaluates `col = $var[col]` null-safely, or the partition record contains no NULL -/
+def envOk (e : Env α) (nG : Nat) : Bool := e.ns || nonNullFrom e nG 0
 
 /-- the user's condition on the order column, on a non-NULL time value. For the exact-time classes
 (`= c`, `> LATEST`, `= LATEST`) the property asks for "just the most recent `window` rows up to that
 point", i.e. no condition rows and a window over `before`. -/
-def TC.cond : TC → Int → Bool
-  | .gt c, v => decide (v > c)
-  | .ge c, v => decide (v ≥ c)
+def TC.cond : TC α → α → Bool
+  | .gt c, v => vgt v c
+  | .ge c, v => vge v c
   | .eq _, _ => false
-  | .lt c, v => decide (v < c)
-  | .le c, v => decide (v ≤ c)
-  | .btw a b, v => decide (a ≤ v) && decide (v ≤ b)
+  | .lt c, v => vlt v c
+  | .le c, v => vle v c
+  | .btw a b, v => vge v a && vle v b
   | .gtLatest, _ => false
   | .eqLatest, _ => false
 
 /-- rows preceding the lower bound of the condition (`none`: the condition has no lower bound) -/
-def TC.before : TC → Option (Int → Bool)
-  | .gt c => some (fun v => decide (v ≤ c))
-  | .ge c => some (fun v => decide (v < c))
-  | .eq c => some (fun v => decide (v ≤ c))
+def TC.before : TC α → Option (α → Bool)
+  | .gt c => some (fun v => vle v c)
+  | .ge c => some (fun v => vlt v c)
+  | .eq c => some (fun v => vle v c)
   | .lt _ => none
   | .le _ => none
-  | .btw a _ => some (fun v => decide (v < a))
+  | .btw a _ => some (fun v => vlt v a)
   | .gtLatest => some (fun _ => true)
   | .eqLatest => some (fun _ => true)
 
-def onTime (f : Int → Bool) (r : Row) : Bool :=
+def onTime (f : α → Bool) (r : Row α) : Bool :=
   match r.t with
   | some v => f v
   | none => false
 
-/-- non-NULL order value ∧ the user's partition filters ∧ the row is in partition `p` -/
-def base (p : List Int) (nG : Nat) (tc : Option TC) (w : Option W) (r : Row) : Bool :=
-  r.t.isSome && restSelO p tc w r && inPart p nG r
+/-- non-NULL order value ∧ the user's partition filters ∧ the row is in partition `e` -/
+def base (e : Env α) (nG : Nat) (tc : Option (TC α)) (w : Option (W α)) (r : Row α) : Bool :=
+  r.t.isSome && restSelO e tc w r && inPart e nG r
 
-/-- `{r | cond r ∧ r.t ≠ NULL}` restricted by the partition filters, for partition `p` -/
-def condRows (p : List Int) (nG : Nat) (tc : Option TC) (w : Option W) (T : List Row) : List Row :=
-  T.filter (fun r => base p nG tc w r &&
+/-- `{r | cond r ∧ r.t ≠ NULL}` restricted by the partition filters, for partition `e` -/
+def condRows (e : Env α) (nG : Nat) (tc : Option (TC α)) (w : Option (W α)) (T : List (Row α)) : List (Row α) :=
+  T.filter (fun r => base e nG tc w r &&
     (match tc with | none => true | some tc => onTime tc.cond r))
 
-/-- `{r | r.t precedes the lower bound ∧ r.t ≠ NULL}` restricted by the partition filters, for partition `p` -/
-def candRows (p : List Int) (nG : Nat) (tc : Option TC) (w : Option W) (bf : Int → Bool) (T : List Row) :
-    List Row :=
-  T.filter (fun r => base p nG tc w r && onTime bf r)
+/-- `{r | r.t precedes the lower bound ∧ r.t ≠ NULL}` restricted by the partition filters, for partition `e` -/
+def candRows (e : Env α) (nG : Nat) (tc : Option (TC α)) (w : Option (W α)) (bf : α → Bool) (T : List (Row α)) :
+    List (Row α) :=
+  T.filter (fun r => base e nG tc w r && onTime bf r)
 
 /-- `L` is a valid choice of the `n` most recent rows of `cands`: it has `min n |cands|` elements, is part of
 `cands` (as a multiset) and nothing left out is more recent than anything taken. Ties may be resolved in any
 way. -/
-def IsLastW (n : Nat) (cands L : List Row) : Prop :=
+def IsLastW (n : Nat) (cands L : List (Row α)) : Prop :=
   ∃ rest, (L ++ rest).Perm cands ∧ L.length = min n cands.length ∧ ∀ a ∈ L, ∀ b ∈ rest, tge a b = true
 
 /-- the window part of the specification for class `tc` -/
-def WindowSpec (n : Nat) (p : List Int) (nG : Nat) (tc : Option TC) (w : Option W) (T L : List Row) : Prop :=
+def WindowSpec (n : Nat) (e : Env α) (nG : Nat) (tc : Option (TC α)) (w : Option (W α)) (T L : List (Row α)) : Prop :=
   match tc.bind TC.before with
   | none => L = []
-  | some bf => IsLastW n (candRows p nG tc w bf T) L
+  | some bf => IsLastW n (candRows e nG tc w bf T) L
 
 /-! ## T15.3: independent reading of "only allowed operators / only order and group columns" -/
 
 /-- every Operation node anywhere in the tree has an allowed operator -/
-def opsOk : W → Bool
+def opsOk : W α → Bool
   | .bin op l r => allowedOp op && opsOk l && opsOk r
   | .btw x a b => opsOk x && opsOk a && opsOk b
   | .un _ => false
   | _ => true
 
 /-- every column mentioned anywhere in the tree is the order column or a group column -/
-def colsOk (nG : Nat) : W → Bool
+def colsOk (nG : Nat) : W α → Bool
   | .ident c => allowedCol nG c
   | .opaque f => !f
   | .bin _ l r => colsOk nG l && colsOk nG r
@@ -154,7 +184,7 @@ def colsOk (nG : Nat) : W → Bool
 
 /-- the fragment on which `validate_ts_where_condition` sees every position: no column hidden in a
 non-Operation node, third BETWEEN operand not an Operation -/
-def visible : W → Bool
+def visible : W α → Bool
   | .opaque f => !f
   | .bin _ l r => visible l && visible r
   | .btw x a b => visible x && visible a && visible b && !b.isOperation
@@ -162,14 +192,14 @@ def visible : W → Bool
   | _ => true
 
 /-- every operand of every AND anywhere in the tree is an Operation ("a condition") -/
-def andOk : W → Bool
+def andOk : W α → Bool
   | .bin op l r => (op != .and || (l.isOperation && r.isOperation)) && andOk l && andOk r
   | .btw x a b => andOk x && andOk a && andOk b
   | .un x => andOk x
   | _ => true
 
 /-- every operand of AND is an Operation (so `find_time_filter` can read `.op`) -/
-def andOperandsOps : W → Bool
+def andOperandsOps : W α → Bool
   | .bin .and l r => l.isOperation && r.isOperation && andOperandsOps l && andOperandsOps r
   | _ => true
 
